@@ -34,6 +34,7 @@ type Engine struct {
 	Notes       map[string]bool // assumptions / abstraction notes collected during runs
 	usedTrusted map[string]bool
 	skipVacuity bool
+	alias       map[string]string // contract name -> current source name (rename recovery, loop clauses only)
 }
 
 type UFunc struct {
